@@ -15,6 +15,7 @@ import (
 	"strings"
 	"sync"
 	"sync/atomic"
+	"syscall"
 	"time"
 	"unsafe"
 
@@ -2288,6 +2289,15 @@ func (db *DB) Drop(ctx context.Context) (err error) {
 		TraceLog.Printf("[Drop(%s)]: pos=%s prevPos=%s pages=%d commit=%d prevPageN=%d pageSize=%d msg=%q %s\n\n",
 			db.name, pos, prevPos, txPageCount, commit, prevPageN, db.pageSize, msg, errorKeyValue(err))
 	}()
+
+	// Dropping the database is a write transaction and needs the locks of one.
+	// It is refused while a connection is in the middle of a transaction on
+	// the database and while a replica holds the HALT lock, which pins them.
+	guardSet := db.TryAcquireWriteLock()
+	if guardSet == nil {
+		return syscall.EBUSY
+	}
+	defer guardSet.Unlock()
 
 	// Open file descriptors for the header & page blocks for new LTX file.
 	ltxPath := db.LTXPath(txID, txID)
